@@ -40,7 +40,7 @@ def must_see(tier):
                'clear', 'get', 'keys-range', 'iterator-partial',
                'lazy-seq', 'missing-key', 'bad-value', 'cmp-fault',
                'set-algebra', 'resolve', 'pickle', 'add', 'remove', 'spop',
-               'inplace', 'bad-state'):
+               'inplace', 'bad-state', 'extras'):
         m['op:' + op] = 20
     return m
 
@@ -416,6 +416,50 @@ def run_history(fam, kind, rng, rec, h):
                     x = pickle.loads(d)
                     y = list(x.keys())
                     del x, y, d
+                elif r < 0.985:
+                    # readers that build fresh objects from the slots:
+                    # byValue (sort + reverse of (value, key) pairs), repr,
+                    # Set indexing, isdisjoint, multiunion
+                    op = 'extras'
+                    q = rng.random()
+                    if is_mapping and q < .45:
+                        try:
+                            x = c.byValue(V(vi))
+                            y = list(x)
+                            del x, y
+                        except (TypeError, SystemError):
+                            # object values that cannot be ordered: the C
+                            # byValue leaves the comparison error pending
+                            # and list.sort() then reports SystemError
+                            # (outside the 19 properties: byValue is
+                            # deprecated and excluded from C09; noted in
+                            # DESIGN 9); the ledger below still has to
+                            # balance on this error path
+                            outcome = 'byValue-unorderable'
+                    elif q < .6:
+                        x = repr(c)
+                        del x
+                    elif kind == 'Set' and q < .8:
+                        for i_ in (0, -1, rng.randint(-3, 3), 10 ** 6):
+                            try:
+                                x = c[i_]
+                                del x
+                            except IndexError:
+                                pass
+                    elif not is_mapping:
+                        o = others()
+                        x = (c.isdisjoint(o),
+                             c.isdisjoint([K(i) for i in rng.sample(
+                                 range(nk), 3)]))
+                        del x, o
+                    elif fam.has_multiunion:
+                        o = others()
+                        x = fam.fn('multiunion', impl)([c, o, K(ki)])
+                        y = list(x)
+                        del x, y, o
+                    else:
+                        x = (len(c), bool(c))
+                        del x
                 else:
                     op = 'clear'
                     c.clear()
